@@ -246,3 +246,34 @@ def side_conditions(A):
 def fl(x):
   """Fraction/int -> float for replays"""
   return float(x)
+
+
+import jax as _jax
+
+
+@_jax.tree_util.register_pytree_node_class
+class Stub:
+  """pytree stand-in for `System`-like arguments: keyword children are pytree children, `static` entries are
+  attributes closed over (callables allowed: sys.act_size() ...)."""
+
+  def __init__(self, static=None, **children):
+    self.__dict__['_children'] = dict(children)
+    self.__dict__['_static'] = dict(static or {})
+    self.__dict__.update(children)
+    self.__dict__.update(self._static)
+
+  def tree_flatten(self):
+    keys = sorted(self._children)
+    return [self._children[k] for k in keys], (tuple(keys), tuple(sorted(self._static.items(), key=lambda kv: kv[0])))
+
+  @classmethod
+  def tree_unflatten(cls, aux, children):
+    keys, static = aux
+    return cls(static=dict(static), **dict(zip(keys, children)))
+
+  def replace(self, **kw):
+    ch = dict(self._children)
+    st = dict(self._static)
+    for k, v in kw.items():
+      (ch if k in ch else st)[k] = v
+    return Stub(static=st, **ch)
